@@ -462,11 +462,20 @@ def _pigeonhole_retain(f, r, sts, ret, sv, N):
         idx_expr = slot_of(marks[0][1][1])
         res = tail[1]
         read_pos = None
-        if res[0] == "var":
-            for k, st in enumerate(csts):
-                if st[0] == "let" and st[1].split("#")[0] == res[1]:
-                    read_pos, res = k, st[3]
-        if res[0] == "un" and res[1] == "Not" and slot_of(res[2]) is not None and expand(slot_of(res[2])) == expand(idx_expr) and read_pos is not None and read_pos < marks[0][0]:
+        neg = False
+        # peel `!` and follow immutable locals back to the read of the occupancy slot; the read must precede the mark
+        for _ in range(4):
+            if res[0] == "un" and res[1] == "Not":
+                neg = not neg
+                res = res[2]
+            elif res[0] == "var":
+                hit = [(k, st) for k, st in enumerate(csts) if st[0] == "let" and not st[2] and st[1].split("#")[0] == res[1]]
+                if len(hit) != 1:
+                    break
+                read_pos, res = hit[0][0], hit[0][1][3]
+            else:
+                break
+        if neg and slot_of(res) is not None and expand(slot_of(res)) == expand(idx_expr) and read_pos is not None and read_pos < marks[0][0]:
             ok = True
         det = {"idx": T.sx_show(expand(idx_expr)), "result": T.sx_show(res)}
     # form 2: `if seen[idx] { false } else { seen[idx] = true; true }`
@@ -547,15 +556,25 @@ def cost_write(ctx):
         sts = T.stmts(f.thir[name]["body"], {"__noinline__": True})
         n = [0]
 
+        def term(x):
+            # whole-codeword amounts: integer literals, or a local (through casts / conversions) that both sides use
+            while isinstance(x, tuple) and (x[0] == "cast" or (x[0] == "call" and x[1].split("::")[-1] in ("from", "into") and len(x[2]) == 1)):
+                x = x[1] if x[0] == "cast" else x[2][0]
+            return x
+
         def visit(stl):
-            costs = writes = 0
+            costs, writes = [], []
             for s in stl:
                 if s[0] == "expr":
                     e = s[1]
-                    if e[0] == "call" and e[1].endswith("::add_assign") and e[2][0][0] == "field" and e[2][0][2] == "cost" and e[2][1][0] == "lit":
-                        costs += e[2][1][1]
-                    if e[0] == "call" and e[1].endswith("ContextInformation::write") and e[2][1][0] == "lit":
-                        writes += e[2][1][1]
+                    if e[0] == "call" and e[1].endswith("::add_assign") and e[2][0][0] == "field" and e[2][0][2] == "cost":
+                        t = term(e[2][1])
+                        if t[0] in ("lit", "var"):
+                            costs.append(t)
+                    if e[0] == "call" and e[1].endswith("ContextInformation::write"):
+                        t = term(e[2][1])
+                        if t[0] in ("lit", "var"):
+                            writes.append(t)
                 elif s[0] == "if":
                     visit(s[2])
                     visit(s[3])
@@ -563,7 +582,10 @@ def cost_write(ctx):
                     visit(s[3] if s[0] == "for" else s[1])
             if costs or writes:
                 n[0] += 1
-                obs.append(Ob(r, "%s:block%d" % (label, n[0]), costs == writes, "%s: a block prices %d whole codeword(s) and books %d into the symbol-fill counter" % (label, costs, writes),
+
+                def norm(ts):
+                    return (sum(t[1] for t in ts if t[0] == "lit" and isinstance(t[1], int)), sorted(t[1] for t in ts if t[0] == "var"))
+                obs.append(Ob(r, "%s:block%d" % (label, n[0]), norm(costs) == norm(writes), "%s: a block prices %s whole codeword(s) and books %s into the symbol-fill counter" % (label, norm(costs), norm(writes)),
                               site=stl[0][-1] if stl and isinstance(stl[0][-1], str) else None))
         visit(sts)
         return n[0]
@@ -595,7 +617,7 @@ def cost_write(ctx):
     wsts = T.stmts(f.thir[wu]["body"], {"__noinline__": True})
     w = [x for st in T.stmt_walk(wsts) for e in T.stmt_exprs(st) for x in T.sx_calls(e, "ContextInformation::write")]
     obs.append(Ob(r, "Base256Plan::write_unlatch", len(w) == 1 and w[0][2][1] == ("lit", 1), "leaving a long Base256 run books the second length codeword (1) into the symbol-fill counter"))
-    obs += floor(obs, r, 5, "cost/write pairs")
+    obs += floor(obs, r, 4, "cost/write pairs")
     return obs
 
 
